@@ -217,8 +217,12 @@ def o_file_with_extra_cutoff_groups(ctx):
     else:
         i = cfg.index('interaction_matrix')
         text = cfg[:i] + line + cfg[i:]
+    # the file the user names by its full path is the file that is read: under a name of its own, or as an edited copy that
+    # keeps the name of the shipped file (propka.cfg) in another directory.  (A relative name is looked up in the package
+    # directory first -- that is how the default '-p propka.cfg' finds the shipped file -- so relative names are not claimed.)
+    fname = ctx.choice('file_name', ['custom.cfg', 'propka.cfg'])
     d = tempfile.mkdtemp(prefix='c18f')
-    path = os.path.join(d, 'custom.cfg')
+    path = os.path.join(d, fname)
     open(path, 'w').write(text)
     try:
         p = I.read_parameter_file(path, Parameters())
@@ -301,7 +305,7 @@ def obligations(tier):
                    claim_doc='interaction type in {I,N,-} for every pair; model pKa and non-zero charge for written-out types; inner < outer cut-offs',
                    kind='table-check', stop_on_violation=False),
         Obligation('O6-file-with-extra-cutoff-groups', o_file_with_extra_cutoff_groups, code=['propka/input.py:read_parameter_file', P + 'Parameters.parse_line', P + 'PairwiseMatrix.add', P + 'PairwiseMatrix.get_value'],
-                   bounds='the shipped file plus one cut-off line for a group without a matrix row (3 names x 4 partners x 3 positions in the file; 36 concrete files)', kind='table-check',
+                   bounds='the shipped file plus one cut-off line for a group without a matrix row (3 names x 4 partners x 3 positions in the file; 36 concrete files), written under a name of its own or as propka.cfg in another directory and addressed by its full path', kind='table-check',
                    claim_doc='the declared pair reads as written in both orders; every look-up involving the new group is symmetric; shipped pairs unchanged'),
     ]
 
